@@ -40,8 +40,8 @@ RANK = {"Main": 5, "Frontend": 4, "GstThread": 4, "Core": 3, "Backend": 2, "Mixe
 OK, DECL, OTHER, DIES, INTR = 0, 1, 2, 3, 4
 OUTCOME_NAME = {0: "ok", 1: "declared-error", 2: "other-error", 3: "dies-in-on_start", 4: "interrupt"}
 LOOP_NAME = {0: "quit", 1: "keyboard-interrupt", 2: "exception"}
-EXPECTED_DYNAMIC = [("Frontend", "Core"), ("Core", "Backend"), ("Core", "Mixer"), ("Backend", "Audio"),
-                    ("Mixer", "Audio"), ("GstThread", "Core")]
+EXPECTED_DYNAMIC = [("Frontend", "Core"), ("Core", "Backend"), ("Core", "Mixer"), ("Core", "Audio"),
+                    ("Backend", "Audio"), ("Mixer", "Audio"), ("GstThread", "Core"), ("Main", "Frontend")]
 
 
 def edge_ok(src, dst):
@@ -57,6 +57,7 @@ def run_worker(mode, indexed_cases, per_case_timeout):
     """Run cases in c18_rt.py; returns {idx: result}; a hang yields {"hang": ...} for that idx."""
     results = {}
     todo = list(indexed_cases)
+    hangs = 0
     while todo:
         tmp = Path(tempfile.mkdtemp(prefix="verif-c18w-"))
         try:
@@ -89,6 +90,11 @@ def run_worker(mode, indexed_cases, per_case_timeout):
             i0, _c0 = rest[0]
             results[i0] = {"hang": hang or {"hang": "worker died", "rc": rc, "stderr": err}}
             todo = rest[1:]
+            hangs += 1
+            if hangs >= 2:  # circuit breaker: do not sit through a timeout per case
+                for i, _c in todo:
+                    results[i] = {"skipped": True}
+                break
         finally:
             shutil.rmtree(tmp, ignore_errors=True)
     return results
@@ -134,7 +140,7 @@ def waitfor_stage(chk):
             chk.monitor_failure(
                 "rank_order", {"waiter": s[0], "awaited": s[1], "file": s[3], "construct": s[5]},
                 f"blocking call {s[0]} -> {s[1]} at {s[3]}:{s[4]} ({s[5]}) does not go strictly downwards",
-                site_case(s))
+                {**site_case(s), "translator_notes": tr.notes[:6]})
     for s in tr.edges()[:2]:
         chk.sample(site_case(s))
 
@@ -145,12 +151,14 @@ def waitfor_stage(chk):
         cases.append({"seed": chk.rng.randint(1, 10**6), "clients": chk.rng.choice([2, 4, 6, 8]),
                       "ops": 60 if chk.tier == "quick" else chk.rng.choice([60, 120, 200]),
                       "backends": chk.rng.choice([1, 2, 3]), "frontends": chk.rng.choice([1, 2]),
-                      "sync_atf": int(i % 2 == 1), "deadline": 90})
-    results = run_parallel("waitfor", cases, per_case_timeout=100, jobs=min(12, n_runs), chunk=1)
+                      "sync_atf": int(i % 2 == 1), "deadline": 30})
+    results = run_parallel("waitfor", cases, per_case_timeout=40, jobs=min(12, n_runs), chunk=1)
     observed = {}
     run_ok = True
     for i, case in enumerate(cases):
         r = results.get(i, {"hang": {"hang": "no result"}})
+        if r.get("skipped"):
+            continue
         chk.count(1, nontrivial_key=("waitfor", case["seed"], case["clients"]))
         chk.dist(f"waitfor_clients={case['clients']}")
         if "hang" in r:
@@ -399,6 +407,9 @@ def evaluate_shutdown(chk, cases, results, label):
     corr_ok = True
     for i, c in enumerate(cases):
         r = results.get(i)
+        if r is not None and r.get("skipped"):
+            chk.dist("skipped_after_hangs")
+            continue
         if r is None or "hang" in r:
             chk.monitor_failure("shutdown_hang", {**shape(c)},
                                 "RootCommand.run did not return (watchdog): a component never stopped",
@@ -474,6 +485,8 @@ def shutdown_stage(chk):
     for i, c in enumerate(cases):
         nfail = sum(1 for x in ([c["om"]] if c["hm"] else []) + c["obs"] + c["ofs"] + [c["oa"], c["oc"]] if x != OK)
         r = results.get(i) or {}
+        if r.get("skipped"):
+            continue
         chk.count(1, nontrivial_key=case_key(c) if (nfail >= 1 and r.get("stops")) else None)
         chk.dist(f"failures={min(nfail, 4)}{'+' if nfail >= 4 else ''}")
         chk.dist(f"loop={LOOP_NAME[c['ol']]}")
